@@ -11,26 +11,30 @@ Definition no_add (outs : list out) : Prop :=
   forall x, In x outs -> match x with OAdd _ _ _ _ => False | _ => True end.
 
 Definition known_mono (st st' : rstate) : Prop :=
-  forall w p, r_prox st w = Some p ->
+  (forall w p, r_prox st w = Some p ->
     exists p', r_prox st' w = Some p' /\ p_base p <= p_base p'
-               /\ forall m, known_p p m = true -> known_p p' m = true.
+               /\ forall m, known_p p m = true -> known_p p' m = true)
+  /\ (forall w, r_prox st w = None -> r_prox st' w = None).
 
 Lemma known_mono_refl st : known_mono st st.
-Proof. intros w p H. exists p. split; [exact H|]. split; [lia|auto]. Qed.
+Proof. split; [|auto]. intros w p H. exists p. split; [exact H|]. split; [lia|auto]. Qed.
 
 Lemma known_mono_set st w p p' :
   r_prox st w = Some p -> p_base p <= p_base p' ->
   (forall m, known_p p m = true -> known_p p' m = true) -> known_mono st (set_prox st w p').
 Proof.
-  intros Hp Hb Hk k q Hq. cbn [set_prox r_prox]. unfold upd. destruct (Z.eqb_spec k w) as [->|N].
-  - rewrite Hp in Hq. inversion Hq; subst. exists p'. auto.
-  - exists q. split; [exact Hq|]. split; [lia|auto].
+  intros Hp Hb Hk. split.
+  - intros k q Hq. cbn [set_prox r_prox]. unfold upd. destruct (Z.eqb_spec k w) as [->|N].
+    + rewrite Hp in Hq. inversion Hq; subst. exists p'. auto.
+    + exists q. split; [exact Hq|]. split; [lia|auto].
+  - intros k Hk0. cbn [set_prox r_prox]. unfold upd. destruct (Z.eqb_spec k w) as [->|N]; [congruence|exact Hk0].
 Qed.
 Lemma known_mono_asm st w fa : known_mono st (set_asm st w fa).
-Proof. intros k q Hq. exists q. split; [exact Hq|]. split; [lia|auto]. Qed.
+Proof. split; [|auto]. intros k q Hq. exists q. split; [exact Hq|]. split; [lia|auto]. Qed.
 Lemma known_mono_trans a b c : known_mono a b -> known_mono b c -> known_mono a c.
 Proof.
-  intros H1 H2 w p Hp. destruct (H1 w p Hp) as (p1 & A & B & C). destruct (H2 w p1 A) as (p2 & D & E & G).
+  intros [H1 D1] [H2 D2]. split; [|auto]. intros w p Hp.
+  destruct (H1 w p Hp) as (p1 & A & B & C). destruct (H2 w p1 A) as (p2 & D & E & G).
   exists p2. split; [exact D|]. split; [lia|auto].
 Qed.
 
